@@ -17,30 +17,56 @@ class C35(vlib.Spec):
     trusted_base = ["coqc 8.16.1 kernel (vm_compute used for case evaluation only)",
                     "hand-written Gallina model of the bincode 1.x wire format / serde data model, MemberId wrappers and "
                     "sinktools::demux_map: coq/theories/Codec/Model.v",
-                    "correspondence harness harness/h_codec (dynamic serde values + derive-based Raft payload types) + tools/codec.py"]
+                    "correspondence harness harness/h_codec (dynamic serde values + derive-based Raft payload types) + tools/codec.py",
+                    "harness/h_quorum (embedded code generation of a cluster->cluster demux: the generated closures)"]
     assumptions = ["serde and bincode are MODELLED, not verified: the theorems are about the model of the wire format, "
                    "validated byte-for-byte against bincode 1.3.3 on the generated values only",
                    "UTF-8 validation of strings, f32/f64, u128, char, maps and byte-limit options are not modelled",
-                   "the generated send/receive closures are re-stated in the harness with the same expressions "
-                   "(id.into_tagless(), bincode::serialize, MemberId::from_tagless, bincode::deserialize); they are not "
-                   "extracted from a compiled Hydro program",
+                   "the generated send/receive closures are exercised for two payload types (u32 and a nested tuple/option/"
+                   "vec/string/Result/i64/bool type) through hydro_lang's embedded code generator (`emb` cases); for arbitrary "
+                   "type codes they are re-stated in the harness with the same expressions",
                    "TaglessMemberId is exercised in its Legacy{raw_id:u32} variant only"]
     rule = ("random nested type codes (depth <= 3/4) with edge-biased values; truncated/extended/random malformed frames; "
             "derive-based RaftRpc<u64,Replica>, LeaderView, LogEntry<String>, MemberId; demux_map runs incl. missing keys; "
             "whole send->demux->receive runs. non-trivial = value with at least one constructor below the root, or a "
             "non-empty item list, or a malformed frame")
 
+    # The `emb` cases run the GENERATED send/receive closures: a cluster->cluster `demux(.., TCP.fail_stop()
+    # .bincode())` compiled through hydro_lang's embedded code generator lives in harness/h_quorum (the crate
+    # with the embedded-runtime feature set); it is built and run here, per case, also on replay.
+    emb_crate, emb_group, emb_binary = "h_quorum", "hydro", "h_quorum"
+
+    def emb_bin(self):
+        if not hasattr(self, "_emb"):
+            ok, bindir, log = vlib.cargo_build(self.emb_crate, self.emb_group)
+            self._emb = os.path.join(bindir, self.emb_binary) if ok else None
+            if not ok:
+                self.ctx.log("embedded harness build failed:\n" + log[-2000:])
+        return self._emb
+
     def gen(self, rng, tier, n):
         cases = []
         for f in sorted(glob.glob(os.path.join(vlib.ROOT, "corpus", "C35", "*.json"))):
             cases.append(json.load(open(f)))
-        return cases + codec.gen_cases(rng, tier, n)
+        cases += codec.gen_cases(rng, tier, n)
+        for _ in range(n // 10):
+            cases.append(codec.gen_emb(rng))
+        return cases
 
     def n_cases(self, tier):
         return 800 if tier == "quick" else 8000
 
     def to_coq(self, case, res):
+        if case["k"] == "emb":
+            b = self.emb_bin()
+            if b is None:
+                return 1  # the generated-closure harness no longer builds against /repo
+            r = vlib.run_harness(self.ctx, b, [case], name="emb")[0]
+            self.emb_results[vlib.case_hash(case)] = r
+            return codec.emb_term(case, r)
         return codec.term(case, res)
+
+    emb_results = {}
 
     def shrink(self, case):
         return codec.shrink(case)
@@ -49,11 +75,13 @@ class C35(vlib.Spec):
         k = case["k"]
         if k == "val":
             return codec.depth_of(case["ty"]) >= 1 or case["ty"] in ("Str", "I64")
-        if k in ("demux", "wire"):
+        if k in ("demux", "wire", "emb"):
             return len(case["items"]) > 0
         return True
 
     def describe(self, case, res):
+        if case["k"] == "emb":
+            res = self.emb_results.get(vlib.case_hash(case), res)
         return {"case": case, "impl": res}
 
     def distribution(self, cases, results):
@@ -62,6 +90,8 @@ class C35(vlib.Spec):
         for c, r in zip(cases, results):
             k = c["k"]
             d["by_kind"][k] = d["by_kind"].get(k, 0) + 1
+            if k == "emb":
+                d["emb_items"] = d.get("emb_items", 0) + len(c["items"])
             if k in ("val", "dec", "wire"):
                 dp = str(codec.depth_of(c["ty"]))
                 d["type_depth"][dp] = d["type_depth"].get(dp, 0) + 1
